@@ -69,7 +69,7 @@ pub fn c03_keccak(r: &mut Rng, tier: &str, w: &mut dyn Write, cfg: &CircuitConfi
         let reps: Vec<u64> = if is_byte { vec![(old + 1) % 256, old ^ 0x80, if old == 0 { 1 } else { 0 }] }
                              else { vec![if old % P == P - 1 { 0 } else { old + 1 }, if old == 0 { 1 } else { 0 }, r.next_u64() % P] };
         for (k, rep) in reps.iter().enumerate() {
-            if *rep == old { continue; }
+            if (!is_byte && *rep % P == old % P) || *rep == old { continue; }   // serde prints the raw u64, which may be the non-canonical P for zero
             let mut t = root.clone();
             *at_pub(&mut t, path) = Value::from(*rep);
             writeln!(w, "c03 3 {bi} v{k} {} = {}", path.join("/"), verdict_k(&data, t)).unwrap();
@@ -134,7 +134,8 @@ pub fn c04_keccak(r: &mut Rng, tier: &str, w: &mut dyn Write, cfg: &CircuitConfi
         if let Ok(q) = serde_json::from_value::<ProofWithPublicInputs<F, KC, D>>(t) {
             let (ok, why) = compare(&base, &chal(&q, &digest), first);
             let comp = path.iter().filter(|s| !s.chars().all(|c| c.is_ascii_digit())).cloned().collect::<Vec<_>>().join(".");
-            writeln!(w, "c04 k{bi} {comp} {} = {} # {why}", path.iter().filter(|s| s.chars().all(|c| c.is_ascii_digit())).cloned().collect::<Vec<_>>().join("."), ok as u8).unwrap();
+            let pos = path.iter().filter(|s| s.chars().all(|c| c.is_ascii_digit())).cloned().collect::<Vec<_>>().join(".");
+            writeln!(w, "c04 k{bi} {comp} {} = {} # {why}", if pos.is_empty() { "0".to_string() } else { pos }, ok as u8).unwrap();
             n += 1;
         }
     }
